@@ -1,8 +1,10 @@
 // Package pgmini interprets the subset of PostgreSQL SQL and PL/pgSQL used by the ledger's bucket schema.
 //
 // Layout: lexer.go (tokens), ast.go + parser*.go (recursive descent parser), value.go / json.go (values, text I/O),
-// types.go (types and casts), db.go (catalog and storage), eval.go (expressions), exec.go (SELECT / DML / triggers /
-// function calls), plexec.go (PL/pgSQL statements), driver.go (database/sql driver).
+// types.go (types and casts), db.go (catalog and storage), eval.go (expressions), funcs.go (built-in and user
+// functions, aggregates), from.go (FROM items, LATERAL, WITH, expression canonicalisation), select.go (one SELECT arm:
+// grouping, DISTINCT ON, ordering), exec.go (statement dispatch), dml.go (INSERT / UPDATE / COPY / triggers),
+// plexec.go (PL/pgSQL statements), driver.go (database/sql driver).
 //
 // Anything outside the subset yields an ErrUnsupported naming the construct; nothing is guessed.
 package pgmini
